@@ -167,10 +167,19 @@ def one(ctx, rng, xr, ops, names):
     npos = int(np.prod(lsizes)) if lsizes else 1
     # neighbouring spectra deliberately very different (peak bins, amplitudes, one all-zero)
     specs = []
+    peakless_ = False
     wide = bool(rng.random() < 0.3)      # calm next to storm: energies seven decades apart within one dataset
     for p in range(npos):
         cls = str(rng.choice(["multimodal", "smooth", "noise", "single_bin", "zeros", "dynrange"], p=[.35, .25, .15, .1, .1, .05]))
-        specs.append(gen.spectrum(rng, f, th, cls)[0] * float(10 ** rng.uniform(-7 if wide else -2, 1)))
+        S_ = gen.spectrum(rng, f, th, cls)[0] * float(10 ** rng.uniform(-7 if wide else -2, 1))
+        if rng.random() < 0.15 and nf >= 3:
+            # an energetic spectrum without an interior peak (monotone tail, e.g. what a frequency cut leaves): its peak
+            # parameters are undefined whatever its neighbours in the array look like
+            prof_ = np.sort(rng.random(nf) + 0.05)[:: (1 if rng.random() < 0.5 else -1)]
+            S_ = prof_[:, None] * (rng.random(len(th)) + 0.05)[None, :] * float(10 ** rng.uniform(-2, 1))
+            rec.note("peakless_position_next_to_others")
+            peakless_ = True
+        specs.append(S_)
     A = np.array(specs).reshape(tuple(lsizes) + (nf, len(th)))
     dt = str(rng.choice(["float64", "float32"]))
     x = gen.make_da(A, f, th, lnames, lsizes, dtype=dt)
@@ -195,6 +204,8 @@ def one(ctx, rng, xr, ops, names):
         # forcing stored in another dimension order / with fewer dimensions than the spectra: make sure an operation
         # that consumes it is driven (pairing must be by dimension name, not by axis position)
         chosen.append(str(rng.choice(["ptm1", "ptm2", "ptm4"])))
+    if peakless_:
+        chosen += [n_ for n_ in ("tp", "dpm", "dpspr", "dpspr_mom2", "alpha", "gamma", "fp") if n_ not in chosen and n_ in ops][: 4]
     ds = x.to_dataset(name="efth")
     if rng.random() < 0.5:
         # datasets as the readers return them: wind and depth variables next to the spectra (the Dataset accessor must
